@@ -144,11 +144,68 @@ def many_fast_parallel(chk, runs, n=60, jobs=8):
     return None
 
 
+def spawn_between_exit_and_sigchld(chk):
+    """(e) forced schedule on the real kernel: a task exits, and BEFORE its SIGCHLD is delivered Conductor spawns the next
+    task.  `subprocess.Popen()` begins with `subprocess._cleanup()`, which polls (waitpid, WNOHANG) every child whose
+    Popen object the program has dropped -- if Conductor did not keep the Popen of a running task alive, that poll
+    reaps the exited task, Conductor's own handler finds nothing, the exit is lost and the run waits for ever.
+    The window is made deterministic inside the cond process: at the start of the spawn that follows the first
+    completion, SIGCHLD is blocked until some child is a zombie, the real `_cleanup()` runs, SIGCHLD is unblocked."""
+    cond = ('run_command(name="p1", run="true", parallelizable=True)\n'
+            'run_command(name="p2", run="sleep 0.4", parallelizable=True)\n'
+            'run_command(name="p3", run="true", parallelizable=True, deps=[":p1"])\n'
+            'combine(name="all", deps=[":p2", ":p3"])\n')
+    root = implrun.make_project({"COND": cond})
+
+    def pre():
+        import gc
+        import signal as sg
+        import subprocess as sp
+        import time as tm
+
+        real = sp._cleanup  # pylint: disable=protected-access
+        state = {"n": 0}
+
+        def children():
+            out = []
+            for tid in os.listdir("/proc/self/task"):
+                try:
+                    out += [int(x) for x in open("/proc/self/task/%s/children" % tid).read().split()]
+                except OSError:
+                    pass
+            return out
+
+        def cleanup():
+            state["n"] += 1
+            if state["n"] == 3:            # the spawn of p3 (after p1 and p2)
+                gc.collect()               # a dropped Popen of a running child lands in subprocess._active now at the latest
+                sg.pthread_sigmask(sg.SIG_BLOCK, {sg.SIGCHLD})
+                t0 = tm.time()
+                while tm.time() - t0 < 5 and not any(_state(c) == "Z" for c in children()):
+                    tm.sleep(0.01)
+                try:
+                    real()
+                finally:
+                    sg.pthread_sigmask(sg.SIG_UNBLOCK, {sg.SIGCHLD})
+                return
+            real()
+
+        sp._cleanup = cleanup  # pylint: disable=protected-access
+
+    res = implrun.run_cond(["run", "//:all", "-j", "2"], root, pre=pre, timeout=25)
+    text = strip_ansi(res.out + res.err)
+    if res.code != 0:
+        return ("task p2 exits while the spawn of p3 is under way (its SIGCHLD is delivered right after subprocess._cleanup()): cond run -j2 ended with %s "
+                "(a negative status / timeout means it never terminated: the exit of p2 was reaped by somebody else): %r" % (res.code, text[-300:]))
+    return None
+
+
 def reaper_scenarios(chk, tier):
     scen = [("batch-exits-j2", lambda: batch_exits(chk, 2, 2)), ("batch-exits-j3-of-4", lambda: batch_exits(chk, 4, 3)),
             ("unrelated-child-7-then-0", lambda: unrelated_child(chk, 7, 0)), ("unrelated-child-0-then-3", lambda: unrelated_child(chk, 0, 3)),
             ("fast-exits", lambda: fast_exits(chk, 12 if tier == "quick" else 200)),
-            ("many-fast-parallel", lambda: many_fast_parallel(chk, 3 if tier == "quick" else 30))]
+            ("many-fast-parallel", lambda: many_fast_parallel(chk, 3 if tier == "quick" else 30)),
+            ("spawn-between-exit-and-sigchld", lambda: spawn_between_exit_and_sigchld(chk))]
     reps = 1 if tier == "quick" else 5
     for name, fn in scen:
         for _ in range(reps if name not in ("fast-exits", "many-fast-parallel") else 1):
